@@ -568,7 +568,7 @@ Proof.
     + apply Hnotin. rewrite H. now apply in_map.
 Qed.
 
-(** srs rows: INSERT .. ON CONFLICT DO NOTHING keeps the FIRST row with an id *)
+(** srs rows: the source's row replaces a row with the same id, so the LAST table with an id decides *)
 Lemma find_srs_app : forall id l s,
   find_srs id (l ++ [s]) = match find_srs id l with Some k => Some k | None => if Z.eqb (s_id s) id then Some s else None end.
 Proof.
@@ -576,18 +576,24 @@ Proof.
   destruct (Z.eqb (s_id x) id); [reflexivity|apply IH].
 Qed.
 
+Lemma find_srs_update : forall id l s,
+  find_srs id (update_srs l s) = if Z.eqb (s_id s) id then Some s else find_srs id l.
+Proof.
+  induction l as [|x l IH]; intros s; cbn [update_srs find_srs]; [reflexivity|].
+  destruct (Z.eqb_spec (s_id x) (s_id s)) as [E|E]; cbn [find_srs].
+  - destruct (Z.eqb_spec (s_id s) id) as [E2|E2]; [reflexivity|].
+    destruct (Z.eqb_spec (s_id x) id) as [E3|E3]; [congruence|reflexivity].
+  - rewrite IH. destruct (Z.eqb_spec (s_id x) id) as [E3|E3]; [|reflexivity].
+    destruct (Z.eqb_spec (s_id s) id) as [E2|E2]; [congruence|reflexivity].
+Qed.
+
 Lemma find_srs_fold : forall ss l id,
   find_srs id (fold_left update_srs ss l) =
-  match find_srs id l with Some k => Some k | None => find_srs id ss end.
+  match find_srs id (rev ss) with Some k => Some k | None => find_srs id l end.
 Proof.
-  induction ss as [|s ss IH]; intros l id; cbn [fold_left find_srs].
-  - destruct (find_srs id l); reflexivity.
-  - rewrite IH. unfold update_srs.
-    destruct (find_srs (s_id s) l) as [k|] eqn:E.
-    + destruct (find_srs id l) eqn:E2; [reflexivity|].
-      destruct (Z.eqb_spec (s_id s) id) as [E3|E3]; [|reflexivity]. rewrite E3 in E. congruence.
-    + rewrite find_srs_app. destruct (find_srs id l); [reflexivity|].
-      destruct (Z.eqb (s_id s) id); reflexivity.
+  induction ss as [|s ss IH]; intros l id; cbn [fold_left rev find_srs]; [reflexivity|].
+  rewrite IH, find_srs_app, find_srs_update. destruct (find_srs id (rev ss)); [reflexivity|].
+  destruct (Z.eqb (s_id s) id); reflexivity.
 Qed.
 
 Lemma find_srs_some : forall id l s, find_srs id l = Some s -> In s l /\ s_id s = id.
@@ -605,7 +611,21 @@ Proof.
   destruct Hin as [->|Hin]; [contradiction|]. eapply IH; eauto.
 Qed.
 
-(** *** schema_copied: a new file on which CreateTables ran describes every table as the source does *)
+(** what the code does in general: per srs id the row of the LAST table with that id, else what was there *)
+Lemma create_tables_srs : forall tl d d' id,
+  Forall table_ok tl -> NoDup (map t_name tl) ->
+  (forall t, In t tl -> ~ In (t_name t) (map tab_name (db_tabs d))) ->
+  create_tables d tl = Ok d' ->
+  find_srs id (db_srs d') =
+  match find_srs id (rev (map t_srs tl)) with Some s => Some s | None => find_srs id (db_srs d) end.
+Proof.
+  intros tl d d' id Hok Hnd Hfresh H.
+  destruct (create_tables_spec tl d Hok Hnd Hfresh) as [d2 [Hrun [_ [Hs _]]]].
+  rewrite H in Hrun. injection Hrun as <-. rewrite Hs. apply find_srs_fold.
+Qed.
+
+(** *** schema_copied: a new file on which CreateTables ran describes every table as the source does,
+    and holds the source's srs row for EVERY srs id (also the ids the library pre-seeds) *)
 Theorem create_tables_fresh : forall tl,
   Forall table_ok tl -> NoDup (map t_name tl) ->
   (* the source's srs table has one row per id *)
@@ -614,8 +634,7 @@ Theorem create_tables_fresh : forall tl,
     map ts_desc (db_tabs d) = map desc_of tl /\
     (forall t, In t tl ->
        find_tab (t_name t) (db_tabs d) = Some (fresh_tab t) /\
-       find_srs (s_id (t_srs t)) (db_srs d) =
-         Some (match find_srs (s_id (t_srs t)) known_srs with Some k => k | None => t_srs t end)).
+       find_srs (s_id (t_srs t)) (db_srs d) = Some (t_srs t)).
 Proof.
   intros tl Hok Hnd Hcons.
   destruct (create_tables_spec tl empty_db Hok Hnd) as [d [Hrun [Ht [Hs _]]]]; [intros ? ? []|].
@@ -623,10 +642,11 @@ Proof.
   - rewrite Ht, map_map. apply map_ext. reflexivity.
   - intros t Hin. split.
     + rewrite Ht. apply (find_tab_in_fresh tl t []); auto.
-    + rewrite Hs, find_srs_fold. destruct (find_srs (s_id (t_srs t)) known_srs); [reflexivity|].
-      destruct (find_srs_in (s_id (t_srs t)) (map t_srs tl) (t_srs t)) as [s' Hs']; [now apply in_map|reflexivity|].
+    + rewrite Hs, find_srs_fold.
+      destruct (find_srs_in (s_id (t_srs t)) (rev (map t_srs tl)) (t_srs t)) as [s' Hs'];
+        [apply -> in_rev; now apply in_map|reflexivity|].
       rewrite Hs'. f_equal. apply find_srs_some in Hs'. destruct Hs' as [Hin' Hid].
-      apply in_map_iff in Hin'. destruct Hin' as [t' [<- Hin']]. symmetry. apply Hcons; auto.
+      apply in_rev in Hin'. apply in_map_iff in Hin'. destruct Hin' as [t' [<- Hin']]. symmetry. apply Hcons; auto.
 Qed.
 
 (** the description equals the source's when no column is a member of a composite key *)
@@ -703,8 +723,7 @@ Theorem fresh_file_spec : forall tl t p fs,
     (* extent *)    ts_extent ts' = pts_ext (all_pts fs) /\
     (* rtree *)     ts_rtree ts' = rtree_of 0 fs /\ len (ts_rtree ts') = nonempty_count fs /\
     (* schema *)    ts_desc ts' = desc_of t /\ map ts_desc (db_tabs d') = map desc_of tl /\
-                    find_srs (s_id (t_srs t)) (db_srs d') =
-                      Some (match find_srs (s_id (t_srs t)) known_srs with Some k => k | None => t_srs t end) /\
+                    find_srs (s_id (t_srs t)) (db_srs d') = Some (t_srs t) /\
     (* transactions *) Z.of_N (db_txs d') = Z.of_nat (len fs) / p + 1.
 Proof.
   intros tl t p fs Hok Hnd Hcons Hin Hp Hf.
@@ -734,14 +753,11 @@ Proof.
     rewrite E. reflexivity.
 Qed.
 
-(** F10: an srs id that gpkg.Open pre-seeds (-1, 0, 4326, 3857) keeps the LIBRARY's row *)
+(** F10 regression (fixed by e2006e7): an srs id that gpkg.Open pre-seeds (-1, 0, 4326, 3857) used to keep
+    the LIBRARY's row; now the source's row is copied over it *)
 Definition witness_srs : srs := MkSrs "WGS 84 / Pseudo-Mercator" 3857 "EPSG" 3857 77 "as written by GDAL".
 Definition witness_table : table :=
   MkTable "roads" [MkCol "fid" "INTEGER" true 1; MkCol "geom" "LINESTRING" false 0] "geom" 2 witness_srs.
-
-Lemma srs_preseeded_refuted : exists t d, table_ok t /\ create_tables empty_db [t] = Ok d /\
-  find_srs (s_id (t_srs t)) (db_srs d) <> Some (t_srs t).
-Proof. exists witness_table. eexists. split; [split; reflexivity|]. split; [reflexivity|]. cbn. discriminate. Qed.
 
 (** ** 9. Writing to one table never touches another (no side condition on the stream) *)
 
